@@ -172,7 +172,7 @@ func AgreeReaders(b []byte, typeMap map[string]reflect.Type, want string, render
 	for _, alt := range []struct {
 		name string
 		res  DecRes
-	}{{"a reader returning one byte per Read", DecodeTrickle(b, typeMap)}, {"a reader returning io.EOF together with the last bytes", DecodeEOFWithData(b, typeMap)}} {
+	}{{"a reader returning one byte per Read", DecodeTrickle(b, typeMap)}, {"a reader returning io.EOF together with the last bytes", DecodeEOFWithData(b, typeMap)}, {"ToObject (bufio over the byte slice)", DecodePublic(b, typeMap)}} {
 		if !alt.res.OK() {
 			return "decoding through " + alt.name + " fails: " + fmt.Sprint(alt.res.Err, alt.res.Panic)
 		}
